@@ -614,6 +614,11 @@ def run(ctx: core.Ctx):
             witness = dict(kind="server", problems=problems[:5])
         samples.append(dict(kind="server-level", hostile_commands=len(hostile_cmds), hostile_handshakes=len(hostile_hs), problems=len(problems)))
 
+    # real sockets: a client that RESETS the connection (idle, with a statement inside the application; plain and under TLS) - the
+    # registration is released and the session closed, once
+    rsw = core.realsock_witness(core.realsock(ctx, ["reset"]))
+    if rsw and witness is None:
+        witness = rsw
     if witness is not None:
         core.report_violation(ctx, "a hostile packet hangs the server, costs unbounded work, or leaves the connection out of step", witness)
     if (not pr["ok"] or disagreements) and not ctx.violations:
